@@ -113,6 +113,11 @@ pub use crate::util::heap::gc_trigger::verif_hooks as gc_trigger_hooks;
 #[path = "verif_system.rs"]
 mod system;
 pub use system::*;
+// C24 / C28 / C31 (family "space"): space table with side-metadata contexts, VM-map descriptor
+// lookup, layout constants, page-resource grant/release events.
+#[path = "verif_space.rs"]
+mod space_hooks;
+pub use space_hooks::*;
 // C34 (family "immixlines"): Immix line mark states, line mark bytes, hole search, block states.
 pub use crate::policy::immix::immixspace::verif_lines as immix_lines;
 // C17 / C18 / C19 (family "race"): forwarding protocol functions, per-thread recorder of atomic
